@@ -254,6 +254,12 @@ func (evidWorld) Exec(prop string, t *Trace) *Result {
 
 	e := &psatoken.Evidence{}
 	e.Claims = live[0]
+	// C08: a shadow Evidence goes through the same history with every validating
+	// call replaced by its non-validating counterpart (plain assignment for
+	// SetClaims, Sign for ValidateAndSign) whenever the claims are valid; while the
+	// two are in step they must be indistinguishable, also after a collaborator fault.
+	shadow := &psatoken.Evidence{Claims: live[0]}
+	inStep := true
 	model := &envModel{state: "none"}
 	faultSeen := false
 	verifyAfterFault := false
@@ -329,6 +335,13 @@ func (evidWorld) Exec(prop string, t *Trace) *Result {
 				model.replaced = true
 			} else if e.Claims != prev {
 				model.replaced = true
+			}
+			if c08 {
+				if v == nil && fired == 0 {
+					shadow.Claims = c
+				} else if v == nil {
+					inStep = false // an injected validation failure has no non-validating counterpart
+				}
 			}
 		case "sign", "vsign":
 			if op.A < 0 || op.A >= len(cfg.Signers) {
@@ -429,6 +442,45 @@ func (evidWorld) Exec(prop string, t *Trace) *Result {
 					}
 				}
 			}
+			if c08 {
+				// the same call on the shadow, validation left out
+				switch {
+				case op.K == "vsign" && (v != nil || op.F == "codec.validate_err"):
+					inStep = false // the validating call refuses (or its Validate() is made to fail); its counterpart would sign
+				case shadow.Claims == nil:
+					inStep = false
+				default:
+					var ssigner cose.Signer = hs
+					if fs != nil {
+						ssigner = &FaultySigner{inner: hs, kind: op.F}
+					}
+					if codecArmed {
+						n := op.B
+						if n < 1 {
+							n = 1
+						}
+						armCodec(op.F, n)
+					}
+					stok, serr := shadow.Sign(ssigner)
+					disarmCodec()
+					if inStep {
+						res.Evals++
+						if (serr == nil) != (err == nil) || !bytes.Equal(stok, tok) {
+							res.violate("C08", "validating-sign-differs-from-plain-sign", "", i, "%s on an Evidence and Sign on its shadow (same history, valid claims, same signer behaviour %q) disagree: err=%v / %v, %d / %d bytes", op.K, op.F, err, serr, len(tok), len(stok))
+						}
+						for _, k := range []int{spec.Key, -1} {
+							a, b := e.Verify(pubKey(k)), shadow.Verify(pubKey(k))
+							if (a == nil) != (b == nil) {
+								res.violate("C08", "validating-sign-leaves-different-state", "", i, "after %s (signer behaviour %q, err=%v) the Evidence and its shadow that used Sign answer Verify(key %d) differently: %v / %v", op.K, op.F, err, k, a, b)
+							}
+						}
+						res.Probes["shadow_compared"]++
+					}
+					if err == nil && serr == nil {
+						inStep = true // both now hold a freshly signed message over the same claims
+					}
+				}
+			}
 			if c08 && op.K == "vsign" {
 				res.Evals++
 				if v != nil {
@@ -457,6 +509,18 @@ func (evidWorld) Exec(prop string, t *Trace) *Result {
 			buf := append([]byte{}, tok...)
 			err := e.UnmarshalCOSE(buf)
 			fired := disarmCodec()
+			if c08 {
+				if codecArmed {
+					n := op.B
+					if n < 1 {
+						n = 1
+					}
+					armCodec(op.F, n)
+				}
+				serr := shadow.UnmarshalCOSE(append([]byte{}, tok...))
+				disarmCodec()
+				inStep = (serr == nil) == (err == nil)
+			}
 			if fired > 0 {
 				res.Faults[op.F] += fired
 				faultSeen = true
@@ -488,6 +552,11 @@ func (evidWorld) Exec(prop string, t *Trace) *Result {
 			res.logf("%d verify key=%d err=%s state=%s genuine=%v", i, op.A, okOrErr(err), model.state, genuine)
 			if faultSeen {
 				verifyAfterFault = true
+			}
+			if c08 && inStep {
+				if serr := shadow.Verify(pubKey(op.A)); (serr == nil) != (err == nil) {
+					res.violate("C08", "validating-history-leaves-different-state", "", i, "Verify(key %d) answers %v on the Evidence and %v on its shadow, which went through the same history with the validating calls replaced by their plain counterparts", op.A, err, serr)
+				}
 			}
 			if !c19 {
 				break
@@ -556,6 +625,24 @@ func (evidWorld) Exec(prop string, t *Trace) *Result {
 				_ = c.SetSecurityLifeCycle(uint16(0x3000 + op.B%256))
 			}
 			model.replaced = true
+			if c08 && shadow.Claims != nil && shadow.Claims != c {
+				// decoded separately: keep the shadow's copy in step
+				sc := shadow.Claims
+				switch op.A % 10 {
+				case 5, 6, 7, 8, 9:
+					fieldMutate(sc, op.A%10)
+				case 0:
+					_ = sc.SetClientID(int32(op.B))
+				case 1:
+					_ = sc.SetSoftwareComponents([]psatoken.ISwComponent{})
+				case 2:
+					_ = sc.SetVSI(fmt.Sprintf("mutated-%d", op.B))
+				case 3:
+					_ = sc.SetNonce(NewRng(uint64(op.B)).Bytes(32))
+				case 4:
+					_ = sc.SetSecurityLifeCycle(uint16(0x3000 + op.B%256))
+				}
+			}
 			res.logf("%d mutate %d", i, op.A)
 		case "encgate":
 			if !c08 || op.A < 0 || op.A >= len(live) || live[op.A] == nil {
